@@ -74,9 +74,12 @@ def corpus_jobs(tier, want_mutants=0, solvers=("linear",), e2e_limit=None, run=T
     return jobs
 
 
-def run_tool(tag, jobs, vectors, ample_gas=1_000_000, threads=14, timeout=3000):
+def run_tool(tag, jobs, vectors, ample_gas=1_000_000, threads=None, timeout=3000):
     out = clean_dir(os.path.join(workdir("sierra"), tag))
-    spec = {"seed": seed(), "vectors": vectors, "threads": threads, "ample_gas": ample_gas, "jobs": jobs}
+    from lib import worker_threads
+    threads = threads or worker_threads(0.5)
+    spec = {"seed": seed(), "vectors": vectors, "threads": threads, "workers": max(1, min(4, threads // 3)), "ample_gas": ample_gas,
+            "worker_mem_kb": 10_000_000, "jobs": jobs}
     jp = os.path.join(out, "jobs.json")
     json.dump(spec, open(jp, "w"))
     rc, o = run([os.path.join(BIN, "sierra_tool"), "batch", jp, out], timeout=timeout)
@@ -127,9 +130,11 @@ def shard_runs(outdir, nshards):
     return [s for s in shards if s["runs"]], byid
 
 
-def validate_runs(outdir, tag, nshards=6):
+def validate_runs(outdir, tag, nshards=None):
     """Validate all recorded runs against SierraRunTrace. Returns (stats, bad) where bad is a list of
     dicts {laws, prog, run(events), event}."""
+    from lib import worker_threads, tlc_heap
+    nshards = nshards or max(1, min(6, worker_threads(2.0)))
     shards, byid = shard_runs(outdir, nshards)
     procs = []
     for i, s in enumerate(shards):
@@ -154,7 +159,7 @@ def validate_runs(outdir, tag, nshards=6):
     def one(item):
         i, s, pp, tp = item
         return i, s, tlc(SPEC_RUN, "SierraRunTrace", "SierraRunTrace.cfg", f"{tag}_shard{i}", workers=1, timeout=3000,
-                         env={"PROGS": pp, "TRACE": tp}, java_opts=JAVA_OPTS_TRACE, heap="6g")
+                         env={"PROGS": pp, "TRACE": tp}, java_opts=JAVA_OPTS_TRACE, heap=tlc_heap(6))
 
     stats = {"states": 0, "transitions": 0, "runs": 0, "events": 0}
     bad = []
